@@ -731,17 +731,19 @@ class Check(PropertyCheck):
 
     def _wire_case(self, rng):
         client = rng.randint(0, 1)            # role of the receiver; the sender masks iff the receiver is the server
-        frames, open_msg, valid = [], False, True
+        frames, open_msg, valid, mtext = [], False, True, False
         for _ in range(rng.randint(1, 4)):
             q = rng.random()
             n = rng.pick([0, 1, 5, 124, 125, 126, 127, 300]) if rng.chance(0.85) else rng.pick([65535, 65536, 70000])
             if q < 0.65:
                 op = 0 if open_msg else rng.pick([1, 2]); fin = int(rng.chance(0.6)); open_msg = not fin
-                p = (b"a\xc3\xa9" * (n // 3 + 1))[:n] if op == 1 else rng.bytes_(min(n, 40)) + b"\x00" * max(0, n - 40)
-                if op != 2: p = p.decode("utf-8", "ignore").encode()
+                if op: mtext = op == 1
+                p = (b"a\xc3\xa9" * (n // 3 + 1))[:n] if mtext else rng.bytes_(min(n, 40)) + b"\x00" * max(0, n - 40)
+                if mtext: p = p.decode("utf-8", "ignore").encode()
             else:
                 op = rng.pick([8, 9, 10]); fin = 1; n = min(n, 125)
-                p = (struct.pack("!H", rng.pick([1000, 1001, 1011, 3000, 4999, 999, 1005, 1016, 2999, 5000])) + b"bye")[: max(2, n)] if op == 8 and rng.chance(0.8) else rng.bytes_(min(n, 20))
+                p = (struct.pack("!H", rng.pick([1000, 1001, 1011, 3000, 4999, 999, 1005, 1016, 2999, 5000])) + b"bye")[: max(2, n)] if op == 8 else rng.bytes_(min(n, 20))
+                if op == 8 and rng.chance(0.15): p = rng.pick([b"", b"\x03"])
             f = {"fin": fin, "rsv": 0, "op": op, "key_hex": None if client else hx(rng.bytes_(4)), "p_hex": hx(p)}
             r = rng.random()
             if r < 0.05: f["rsv"] = rng.randint(1, 7); valid = False
@@ -752,11 +754,15 @@ class Check(PropertyCheck):
             frames.append(f)
         if rng.chance(0.12) and len(frames) > 1:     # message sequencing violations (MessageDecoder)
             k = rng.randint(0, len(frames) - 1)
-            if frames[k]["op"] in (0, 1, 2): frames[k]["op"] = rng.pick([0, 1, 2]); valid = False
+            if frames[k]["op"] in (0, 1, 2):      # (a binary payload is never relabelled as text: UTF-8 validity is a parameter)
+                frames[k]["op"] = rng.pick([0, 2] if frames[k]["op"] != 1 and not valid_utf8(unhx(frames[k]["p_hex"])) else [0, 1, 2]); valid = False
         case = {"kind": "wire", "client": client, "frames": frames, "valid": int(valid), "events": 1}
         r = rng.random()
         total = len(wire_bytes(case))
-        if r < 0.15 and total: case["trunc"] = rng.randint(0, total - 1)
+        if r < 0.15 and total:
+            # wsproto reports sequencing errors as soon as the header of an incomplete frame is in; the whole-frame
+            # model waits for the frame -> on truncated streams only the complete frames are compared
+            case["trunc"] = rng.randint(0, total - 1); case["events"] = 0
         elif r < 0.3 and total:
             # a byte of the header region is overwritten: payload bytes may shift, so text/close-reason UTF-8 validity
             # (a parameter of the model) is no longer known -> compare frames only, not events
